@@ -323,3 +323,32 @@ gproof! { fn c12_union_eq_cross_variant_same_allocation() {
     core::mem::forget(u1);
     core::mem::forget(u2);
 } }
+
+// ---- check mode (proof_for_contract): the tag algebra with frame enforcement ----
+// @h props=C12 mode=check fuc=ArcUnion::is_first
+#[kani::proof_for_contract(ArcUnion::<S1, S9a8>::is_first)]
+fn c12_chk_union_is_first() {
+    vrt::ghost_reset();
+    let u: ArcUnion<S1, S9a8> = if kani::any() { ArcUnion::from_first(Arc::new(S1::any())) } else { ArcUnion::from_second(Arc::new(S9a8::any())) };
+    let _ = u.is_first();
+    kani::cover!(true, "END");
+    core::mem::forget(u);
+}
+// @h props=C12 mode=check fuc=ArcUnion::borrow
+#[kani::proof_for_contract(ArcUnion::<S1, S9a8>::borrow)]
+fn c12_chk_union_borrow() {
+    vrt::ghost_reset();
+    let u: ArcUnion<S1, S9a8> = if kani::any() { ArcUnion::from_first(Arc::new(S1::any())) } else { ArcUnion::from_second(Arc::new(S9a8::any())) };
+    let _ = u.borrow();
+    kani::cover!(true, "END");
+    core::mem::forget(u);
+}
+// @h props=C12,C01,C04 mode=check fuc=ArcUnion::from_second
+#[kani::proof_for_contract(ArcUnion::<S1, S9a8>::from_second)]
+fn c12_chk_union_from_second() {
+    vrt::ghost_reset();
+    let a = mk(S9a8::any(), any_count());
+    let u: ArcUnion<S1, S9a8> = ArcUnion::from_second(a);
+    kani::cover!(true, "END");
+    core::mem::forget(u);
+}
